@@ -4,6 +4,7 @@ package main
 import (
 	"fmt"
 	"os"
+	"strings"
 
 	"golang.org/x/tools/go/ssa"
 	"verif/checker/internal/ana"
@@ -45,7 +46,33 @@ func main() {
 			}
 		}
 	}
-	if len(os.Args) > 3 {
+	if len(os.Args) > 3 && strings.HasPrefix(os.Args[3], "bound:") {
+		// edges and exits of a callee with its parameters bound to the argument terms of its call in fn
+		for _, ci := range ana.Calls(fn) {
+			h := ci.Common().StaticCallee()
+			if h == nil || h.Name() != strings.TrimPrefix(os.Args[3], "bound:") {
+				continue
+			}
+			hb := ana.NewBuilder(p, h)
+			hb.Bind = map[*ssa.Parameter]*ana.Term{}
+			for i, prm := range h.Params {
+				hb.Bind[prm] = b.Of(ci.Common().Args[i], ci)
+			}
+			for _, ce := range hb.CondEdges() {
+				fmt.Printf("BEDGE b%d->b%d  %s\n", ce.From.Index, ce.To.Index, ce.Lit)
+			}
+			for _, e := range ana.Exits(h) {
+				if e.Panic {
+					continue
+				}
+				fmt.Printf("BRET b%d:", e.Instr.Block().Index)
+				for _, r := range e.Results {
+					fmt.Printf("  %s", hb.Of(r, e.Instr))
+				}
+				fmt.Println()
+			}
+		}
+	} else if len(os.Args) > 3 {
 		fn.WriteTo(os.Stdout)
 	}
 }
